@@ -180,7 +180,7 @@ def run_ident(ctx, r):
             rp = dict(rep, case=i_, observed=o_)
             scen = f.get('scen')
             if f.get('hang') == '1':
-                r.hits.append(Hit('monitor', 'C14:rt:ident:hang:%s' % scen, 'no progress for 15 s in scenario %s (%d workers, %s): %s' % (scen, workers, policy, i_), rp))
+                r.hits.append(Hit('monitor', 'C14:rt:ident:hang:%s' % scen, 'no progress for 30 s in scenario %s (%d workers, %s): %s' % (scen, workers, policy, i_), rp))
                 continue
             if scen == 'dtor':
                 where = 'same_os_thread_other_task' if f.get('same_os') == '1' else 'other_os_thread_other_task'
@@ -188,7 +188,7 @@ def run_ident(ctx, r):
                 r.nontrivial('ident:%d:%s:%s' % (workers, policy, i_))
                 if f.get('returned') != '1':
                     r.hits.append(Hit('monitor', 'C14:rt:ident:dtor_hang:%s' % where,
-                                      'task B destroying a stop_callback whose callback is in progress inside task A (request_stop) did not return within 6 s: %s | %s' % (i_, o_), rp))
+                                      'task B destroying a stop_callback whose callback is in progress inside task A (request_stop) did not return within 10 s: %s | %s' % (i_, o_), rp))
                 elif f.get('early') != '0':
                     r.hits.append(Hit('monitor', 'C14:rt:dtor_returned_during_callback:%s' % where,
                                       'task A called request_stop(); its callback gave up the worker (yield / suspend) for ~2 ms; task B destroyed that stop_callback '
@@ -204,7 +204,7 @@ def run_ident(ctx, r):
                 if f.get('returned') != '1':
                     r.hits.append(Hit('monitor', 'C14:rt:self_deregistration:deadlock:%s' % mig,
                                       'a callback that gave up its worker%s and then destroyed its own stop_callback from inside never returned (request_stop did not '
-                                      'return within 5 s): the destructor waits for the callback running on its own thread (= the same pika task) (%d workers, scheduler %s): %s | %s'
+                                      'return within 10 s): the destructor waits for the callback running on its own thread (= the same pika task) (%d workers, scheduler %s): %s | %s'
                                       % (' and continued on another worker OS thread' if f.get('migrated') == '1' else '', workers, policy, i_, o_), rp))
                 elif f.get('ran') != '1' or f.get('req') != '1' or f.get('cb_done') != '1':
                     r.hits.append(Hit('monitor', 'C14:rt:self_deregistration:outcome', 'self-deregistering callback: %s' % o_, rp))
@@ -226,7 +226,7 @@ def run(ctx):
               'task A calls request_stop(), its callback gives up the worker for ~2 ms (yield loop / suspension released by an OS thread / both), a different '
               'task B hinted to the same or to another worker destroys that stop_callback meanwhile -- the destructor returns only after the callback\'s last '
               'statement (hit classified by the observed OS thread ids: same_os_thread_other_task / other_os_thread_other_task); dual: a callback that gave up its '
-              'worker (and migrated to another worker OS thread where tasks are stolen) destroys its own stop_callback from inside and must not deadlock (5 s watchdog). '
+              'worker (and migrated to another worker OS thread where tasks are stolen) destroys its own stop_callback from inside and must not deadlock (10 s watchdog). '
               'STRESS (free-running stress twin, harness/c14_stress.cpp): real concurrency on plain OS threads, no controller, no '
               'hook installed — per trial a fresh stop_source (one copy per requester), one token, M in 0..5 stop_callbacks '
               'registered up front (kinds: plain / destroys itself from inside the callback / destroyed by a racing thread), then '
